@@ -154,17 +154,38 @@ def gen_set(seed, n_queries=(6, 10), kinds=KINDS, weights=None, n_refs=None, odd
         k = rnd.choice((1, 1, 2, 4))
         pos = sorted(rnd.randint(500, 12000) for _ in range(k))
         refs.append((len(refs) + 1, rnd.choice((pos[-1] + 10, 300000, 900000)), pos))
+    if rx.random() < 0.08:
+        big = 2 ** 53 + 1 + 2 * rx.randint(0, 10 ** 6)
+        refs[-1] = (big,) + tuple(refs[-1][1:])                    # ... and such a reference id
     queries, truths = [], {}
     nq = rnd.randint(*n_queries)
     for q in range(nq):
         kind = rnd.choices(kinds, weights=weights)[0]
         lab, truth = gen_query(rnd, refs, kind, rx)
         qid = (q + 1) * rnd.choice((1, 1, 3)) + (100 if rnd.random() < 0.2 else 0)
+        if rx.random() < 0.06:
+            qid = 2 ** 53 + 1 + 2 * rx.randint(0, 10 ** 6)        # a valid int64 molecule id that no double represents
         while qid in truths:
             qid += 1
         tail = rnd.randint(1, 2000)
         queries.append((qid, lab[-1] + truth.pop('tail', tail), lab))
         truths[qid] = truth
+    if rx.random() < 0.15:
+        # a short contig whose labels start behind a long unlabelled head, and a molecule that carries all of its labels plus a few more in front of
+        # them (reaching into the head): the molecule's labelled span exceeds the contig's, yet it fits on the contig, and that is where it belongs
+        head = rx.randint(150000, 400000)
+        cpos, x = [], head
+        for _ in range(rx.randint(10, 16)):
+            cpos.append(x)
+            x += rx.randint(4000, 14000)
+        cid = max(r[0] for r in refs) + 1
+        refs.append((cid, cpos[-1] + rx.randint(500, 3000), cpos))
+        front = sorted(rx.sample(range(20000, head - 20000, 1000), rx.randint(2, 4)))
+        lab = front + cpos
+        lab = [p - lab[0] for p in lab]
+        qid = max(truths) + 7 if truths else 7
+        queries.append((qid, lab[-1] + 50, lab))
+        truths[qid] = dict(kind='overhang_head', reference=cid, reverse=False)
     return refs, queries, truths
 
 
